@@ -70,11 +70,11 @@ Lemma link_sk_serve : C02_Gen.sk_serve =
   [
    "r.Header.Get"; "h.handler.ServeHTTP"; "return"; "r.Context"; "context.WithTimeout"; 
    "defer:cancelCtx"; "r.WithContext"; "make"; "make"; "make"; "go:func"; "{"; "defer:func"; "{"; 
-   "recover"; "send:panicChan"; "}"; "h.handler.ServeHTTP"; "close"; "}"; "select"; "case:"; 
-   "recv:panicChan"; "panic"; "case:"; "recv:done"; "tw.mu.Lock"; "defer:tw.mu.Unlock"; "w.Header"; 
-   "w.WriteHeader"; "tw.wbuf.Bytes"; "w.Write"; "case:"; "recv:ctx.Done()"; "tw.mu.Lock"; 
-   "defer:tw.mu.Unlock"; "r.Context"; "ctx.Err"; "errors.Is"; "w.WriteHeader"; "w.WriteHeader"; 
-   "h.errorBody"; "io.WriteString"; "httpx.ErrorCtx"]%string.
+   "return"; "recover"; "send:panicChan"; "}"; "h.handler.ServeHTTP"; "close"; "}"; "select"; 
+   "case:"; "recv:panicChan"; "panic"; "case:"; "recv:done"; "tw.mu.Lock"; "defer:tw.mu.Unlock"; 
+   "w.Header"; "w.WriteHeader"; "tw.wbuf.Bytes"; "w.Write"; "case:"; "recv:ctx.Done()"; 
+   "tw.mu.Lock"; "defer:tw.mu.Unlock"; "r.Context"; "ctx.Err"; "errors.Is"; "w.WriteHeader"; 
+   "w.WriteHeader"; "h.errorBody"; "io.WriteString"; "httpx.ErrorCtx"]%string.
 Proof. reflexivity. Qed.
 
 (* timeoutWriter.Write: whole body under tw.mu *)
@@ -95,11 +95,11 @@ Lemma link_sk_whl : C02_Gen.sk_whl =
    "checkWriteHeaderCode"; "return"; "relevantCaller"; "path.Base"; "internal.Errorf"]%string.
 Proof. reflexivity. Qed.
 
-(* RecoverHandler: deferred recover writes the 500, then next *)
+(* RecoverHandler: deferred func returns if `finished`, else recover + 500; then next *)
 Lemma link_sk_recover : C02_Gen.sk_recover =
   [
-   "defer:func"; "{"; "recover"; "debug.Stack"; "fmt.Sprintf"; "internal.Error"; "w.WriteHeader"; 
-   "}"; "next.ServeHTTP"; "http.HandlerFunc"; "return"]%string.
+   "defer:func"; "{"; "return"; "recover"; "debug.Stack"; "fmt.Sprintf"; "internal.Error"; 
+   "w.WriteHeader"; "}"; "next.ServeHTTP"; "http.HandlerFunc"; "return"]%string.
 Proof. reflexivity. Qed.
 
 (* MaxConns: TryBorrow, DEFERRED Return, next; else 503 *)
@@ -133,11 +133,11 @@ Proof. reflexivity. Qed.
 Lemma link_sk_rpc_timeout : C02_Gen.sk_rpc_timeout =
   [
    "context.WithTimeout"; "defer:cancel"; "make"; "make"; "go:func"; "{"; "defer:func"; "{"; 
-   "recover"; "debug.Stack"; "string"; "strings.TrimSpace"; "fmt.Sprintf"; "send:panicChan"; "}"; 
-   "lock.Lock"; "defer:lock.Unlock"; "handler"; "close"; "}"; "select"; "case:"; "recv:panicChan"; 
-   "panic"; "case:"; "recv:done"; "lock.Lock"; "defer:lock.Unlock"; "return"; "case:"; 
-   "recv:ctx.Done()"; "ctx.Err"; "err.Error"; "status.Error"; "err.Error"; "status.Error"; 
-   "return"; "return"]%string.
+   "return"; "recover"; "debug.Stack"; "string"; "strings.TrimSpace"; "fmt.Sprintf"; 
+   "send:panicChan"; "}"; "lock.Lock"; "defer:lock.Unlock"; "handler"; "close"; "}"; "select"; 
+   "case:"; "recv:panicChan"; "panic"; "case:"; "recv:done"; "lock.Lock"; "defer:lock.Unlock"; 
+   "return"; "case:"; "recv:ctx.Done()"; "ctx.Err"; "err.Error"; "status.Error"; "err.Error"; 
+   "status.Error"; "return"; "return"]%string.
 Proof. reflexivity. Qed.
 
 (* UnaryCrashInterceptor: deferred handleCrash around the handler *)
@@ -146,10 +146,10 @@ Lemma link_sk_rpc_crash : C02_Gen.sk_rpc_crash =
    "defer:handleCrash"; "toPanicError"; "handler"; "return"]%string.
 Proof. reflexivity. Qed.
 
-(* handleCrash: recover, then the callback *)
+(* handleCrash: return if *finished, else the callback on recover() *)
 Lemma link_sk_rpc_handlecrash : C02_Gen.sk_rpc_handlecrash =
   [
-   "recover"; "handler"]%string.
+   "return"; "recover"; "handler"]%string.
 Proof. reflexivity. Qed.
 
 (* ------------------------------------------------------------------ Exec's schedules are runs of the LTS *)
